@@ -151,6 +151,23 @@ def decObs (e : SExp) : Option Spec.Obs := do
            recovDefault := recovd }
   | _ => none
 
+/-- a request that the installed RouteSelector (a wrapper of the harness around the built-in router)
+    refuses with a plain error value: `Serve.serveRouterError`; of the predicates only C06 (its
+    sentence about requests that fail routing) and the model-free C13 are evaluated — such requests
+    are generated by the C06 check only -/
+def routerErr (cfg : Cfg) (viaServeHTTP : Bool) (sr : SExp) (rest : List SExp) : String :=
+  match decSReq sr with
+  | some sreq =>
+    let res := encServeResult (serveRouterError cfg viaServeHTTP {} sreq)
+    let specs := match rest with
+      | [real] =>
+        match decObs real with
+        | some o => specLine "C06" (Spec.c06RouterErrorHolds cfg o) ++ specLine "C13" (Spec.c13Holds o)
+        | none => " (spec BADOBS 0)"
+      | _ => ""
+    (res.dropEnd 1).toString ++ specs ++ ")"
+  | none => "(bad-h)"
+
 /-- `(serve id scfg (hist (h entry sreq real?) …))` → one `(res …)` per request, each served on a fresh
     ledger, with the serve predicates evaluated on the REAL observation when one is given -/
 def handleServe : SExp → Option String
@@ -159,6 +176,8 @@ def handleServe : SExp → Option String
     | some cfg, some hs =>
       let outs := hs.map fun e =>
         match e with
+        | .list (.atom "h" :: .atom "routerErr" :: sr :: rest) => routerErr cfg false sr rest
+        | .list (.atom "h" :: .atom "serveRouterErr" :: sr :: rest) => routerErr cfg true sr rest
         | .list (.atom "h" :: en :: sr :: rest) =>
           match decServeEntry en, decSReq sr with
           | some entry, some sreq =>
